@@ -108,6 +108,28 @@ pub fn take_panic() -> String {
         .unwrap_or_else(|| "<unknown panic>".to_string())
 }
 
+/// Replay by header line: `# engine=... seed=... case=N ...` -> re-run case N of that engine with the same parameters.
+fn header_replay(args: &Args, cmd: &str, engine_main: fn(&Args) -> i32) -> i32 {
+    let Some(path) = args.pos.first() else {
+        return 2;
+    };
+    let text = std::fs::read_to_string(path).unwrap_or_default();
+    let mut kv: BTreeMap<String, String> = BTreeMap::new();
+    for p in text.lines().next().unwrap_or("").split_whitespace() {
+        if let Some((k, v)) = p.split_once('=') {
+            kv.insert(k.to_string(), v.to_string());
+        }
+    }
+    let idx: u64 = kv.get("case").and_then(|s| s.parse().ok()).unwrap_or(0);
+    kv.insert("from".to_string(), idx.to_string());
+    kv.insert("to".to_string(), (idx + 1).to_string());
+    engine_main(&Args {
+        cmd: cmd.into(),
+        kv,
+        pos: vec![],
+    })
+}
+
 fn main() {
     let args = Args::parse();
     install_panic_hook();
@@ -125,6 +147,8 @@ fn main() {
         "director" => engine_director::main(&args),
         "director-replay" => engine_director::replay_main(&args),
         "trace-mt" => engine_trace_mt::main(&args),
+        "trace-mt-replay" => header_replay(&args, "trace-mt", engine_trace_mt::main),
+        "tracker-replay" => header_replay(&args, "tracker", engine_tracker::main),
         "trace-mt-child" => engine_trace_mt::child_main(&args),
         "trace" => engine_trace::main(&args),
         "trace-child" => engine_trace::child_main(&args),
